@@ -18,6 +18,7 @@ static const char* names[] = {
     "two cycles: publish,close / clear / publish,publish,close with a consumer per cycle",
     "close racing with the wake-up of the last publish: publish,close || sleeping consume(2)",
     "publish_n(2) || publish ; close || consume(3)",
+    "126 items pre-published: publish,close || consume(3) from 126: the end marker lies in the first block of a range that straddles the 128-slot block",
 };
 int harness_configs() { return sizeof(names) / sizeof(names[0]); }
 const char* harness_config_name(int c) { return names[c]; }
@@ -105,6 +106,18 @@ void harness_main(int cfg) {
       ts.emplace_back([&] { auto r = cs.consume(3); bbmc::check(r.size() == 3, "consume(3) across the block boundary came up short"); for (size_t i = 0; i < r.size(); i++) take(g1, &r[i]); bbmc::check(cs.consume() == nullptr, "no end marker"); g1.ended = true; });
       for (auto& x : ts) x.join();
       expect_exact(g1, {1, 2, 3});
+      break;
+    }
+    case 8: {
+      bbmc::quiet();
+      for (int i = 0; i < 126; i++) pub(t, 1000 + i);
+      auto cs = t.subscribe(); { auto r = cs.consume(126); bbmc::require(r.size() == 126, "prefill"); }
+      scope_slots(t, 126, 130);
+      bbmc::explore_begin();
+      ts.emplace_back([&] { pub(t, 1); t.close(); });   // item in slot 126, end marker in slot 127
+      ts.emplace_back([&] { auto r = cs.consume(3); bbmc::check(r.size() == 1, "consume(3) must return the single item that precedes the end marker"); for (size_t i = 0; i < r.size(); i++) take(g1, &r[i]); bbmc::check(cs.consume() == nullptr, "no end marker"); g1.ended = true; });
+      for (auto& x : ts) x.join();
+      expect_exact(g1, {1});
       break;
     }
     case 5: {
